@@ -53,10 +53,19 @@ anyhow = "1.0.97"
 """
 
 
-def bin_manifest(name, sv_name="sylvia"):
+def workspace_dependencies(sv_name):
+    """`[workspace.dependencies]` entry that renames the framework; members inherit it with `{ workspace = true }`."""
+    feats = ", ".join(f'"{f}"' for f in SYLVIA_FEATURES)
+    return f'[workspace.dependencies]\n{sv_name} = {{ package = "sylvia", path = "{REPO}/sylvia", features = [{feats}] }}\n'
+
+
+def bin_manifest(name, sv_name="sylvia", inherit=False):
     feats = ", ".join(f'"{f}"' for f in SYLVIA_FEATURES)
     dep = f'sylvia = {{ path = "{REPO}/sylvia", features = [{feats}] }}'
-    if sv_name != "sylvia":
+    if sv_name != "sylvia" and inherit:
+        # the member's own manifest never says `package = "sylvia"`
+        dep = f'{sv_name} = {{ workspace = true }}'
+    elif sv_name != "sylvia":
         dep = f'{sv_name} = {{ package = "sylvia", path = "{REPO}/sylvia", features = [{feats}] }}'
     return f"""[package]
 name = "{name}"
